@@ -17,7 +17,7 @@ Fixpoint ssortedb (l : list Z) : bool :=
   | _ => true
   end.
 Definition rlim_okb (sh : Z * Z) : bool :=
-  fits_long (fst sh) && fits_long (snd sh) && (u64 (fst sh) <=? u64 (snd sh)).
+  (0 <=? fst sh) && (fst sh <=? snd sh) && (snd sh <=? RLIM_INFINITY).
 Definition wf_procb (k : kernel) (p : proc) : bool :=
   (-20 <=? p_nice p) && (p_nice p <=? 19)
   && (0 <=? p_ioprio p) && (p_ioprio p <? 4 * 8192)
@@ -36,7 +36,7 @@ Definition get_form (r : req) : req :=
   | Nice _ => Nice None
   | Ionice _ _ => Ionice None None
   | Affinity _ => Affinity None
-  | Rlimit res _ => Rlimit res None
+  | Rlimit res _ | RlimitScalar res _ => Rlimit res None
   end.
 
 (* what the kernel reports for that process *)
@@ -46,12 +46,12 @@ Definition spec_get (pid : Z) (r : req) (k : kernel) : option (outcome resv) :=
   | Some p =>
     match r with
     | Nice _ => Some (Val (RInt (p_nice p)))
-    | Ionice _ _ => Some (Val (RPair (p_ioprio p / 8192) (p_ioprio p mod 8192)))
+    | Ionice _ _ => Some (Val (RPair (reported_ioprio k p / 8192) (reported_ioprio k p mod 8192)))
     | Affinity _ => Some (Val (RList (p_mask p)))
-    | Rlimit res _ =>
+    | Rlimit res _ | RlimitScalar res _ =>
       if res_ok res then
         match nth_error (p_rlim p) (Z.to_nat res) with
-        | Some (s, h) => Some (Val (RPair s h))
+        | Some (s, h) => Some (Val (RPair (rlim2py s) (rlim2py h)))   (* RLIM_INFINITY shows as -1 *)
         | None => None
         end
       else None
@@ -69,19 +69,20 @@ Definition spec_req (pid : Z) (r : req) (k : kernel) : option (outcome resv * ke
     match r with
     | Nice None | Ionice None None | Affinity None | Rlimit _ None =>
       match spec_get pid r k with Some o => same o | None => None end
-    (* every nice value -20..19 *)
+    (* every nice value -20..19 (that the caller is permitted to set: a successful set) *)
     | Nice (Some v) =>
-      if (-20 <=? v) && (v <=? 19) then Some (Val RNone, kupd pid (set_nice v) k) else None
+      if (-20 <=? v) && (v <=? 19) && ((p_nice p <=? v) || can_nice k p v)
+      then Some (Val RNone, kupd pid (set_nice v) k) else None
     (* a level without a class *)
     | Ionice None (Some _) => same (Exc ValueError)
     | Ionice (Some c) v =>
       let lvl := match v with None => 0 | Some x => x end in
       if (lvl <? 0) || (7 <? lvl) then same (Exc ValueError)                  (* level outside 0-7 *)
       else if ((c =? 0) || (c =? 3)) && negb (lvl =? 0) then same (Exc ValueError)  (* level for idle/none *)
-      else if ((c =? 0) || (c =? 3)) && match v with Some _ => true | None => false end
-           then None            (* an explicit level 0 for idle/none: the text is ambiguous, nothing demanded *)
-      else if (0 <=? c) && (c <=? 3)
-           then Some (Val RNone, kupd pid (set_ioprio (c * 8192 + lvl)) k)   (* every class x level *)
+      (* every class x level; level 0 is the one level idle/none have (it is what the get form
+         reports for them), so an explicit 0 is a valid value, not "a level given" *)
+      else if (0 <=? c) && (c <=? 3) && (negb (c =? 1) || k_cap_admin k || k_cap_nice k)
+           then Some (Val RNone, kupd pid (set_ioprio (c * 8192 + lvl)) k)
       else None
     (* cpu_affinity([]) selects all eligible CPUs *)
     | Affinity (Some []) => Some (Val RNone, kupd pid (set_mask (p_elig p)) k)
@@ -93,10 +94,17 @@ Definition spec_req (pid : Z) (r : req) (k : kernel) : option (outcome resv * ke
     | Rlimit res (Some l) =>
       match l with
       | [s; h] =>
+        (* every resource, soft <= hard as rlim_t (-1 = RLIM_INFINITY), permitted to the caller *)
         if res_ok res && fits_long s && fits_long h && (u64 s <=? u64 h)
-        then Some (Val RNone, kupd pid (fun p => set_rlim (upd_nth (Z.to_nat res) (s, h) (p_rlim p)) p) k)
+           && (negb (res =? RLIMIT_NOFILE) || (u64 h <=? k_nr_open k))
+           && ((u64 h <=? snd (nth (Z.to_nat res) (p_rlim p) (0, 0))) || k_cap_resource k)
+        then Some (Val RNone, kupd pid (fun p => set_rlim (upd_nth (Z.to_nat res) (u64 s, u64 h) (p_rlim p)) p) k)
         else None
       | _ => same (Exc ValueError)       (* a limits argument that is not a pair *)
       end
+    (* a scalar is "not a pair" too, but the code answers TypeError (from len()); DESIGN par. 8
+       records this as an observation: nothing demanded here, the model theorem says
+       TypeError + nothing changed *)
+    | RlimitScalar _ _ => None
     end
   end.
